@@ -427,6 +427,11 @@ def ptprocess_scenarios(ctx):
         for sc in scripts:
             e = runners[k % len(runners)]
             scen.append({"id": "ptlife%d" % k, "env": e["env"], "steps": [{"a": a, "s": s} for a, s in sc], "group": "life"}); k += 1
+    # a recorded deviation, not a verdict: a flood of connections under a small descriptor limit (group "note")
+    for rep in range(1 if quick else 3):
+        e = [x for x in runners if x["env"]["role"] == ("server", "client", "server")[rep]][rep]
+        scen.append({"id": "ptflood%d" % rep, "env": e["env"], "nofile": 40, "group": "note",
+                     "steps": [{"a": "probe", "s": ""}, {"a": "flood", "s": "", "n": 80}, {"a": "probe", "s": ""}, {"a": "ask", "s": "TERM"}]})
     # shutdown requests DURING the configuration (D11 on the real binary): a few milliseconds after launch
     for rep in range(1 if quick else 4):
         for ms in (1, 2, 3, 4, 5, 6, 8, 10, 14):
@@ -442,6 +447,7 @@ def run_ptprocess(ctx):
     quick = ctx.quick()
     ctx.tlc_expect_ok("PtProcess", "PtProcess_quick.cfg" if quick else "PtProcess_MC.cfg",
                       label="PT process: configuration protocol invariants + shutdown liveness over every environment", timeout=1800)
+    ctx.tlc_expect_violation("PtProcess", "PtProcess_flood_asis.cfg", "ListensWhileRunning", workers=1)
     scen = ptprocess_scenarios(ctx)
     binary = os.path.join(ctx.scratch, "obfs4proxy.real")
     p = subprocess.run(["go", "build", "-o", binary, "./obfs4proxy"], cwd=REPO, env=goenv(), stdout=subprocess.PIPE, stderr=subprocess.STDOUT, text=True)
@@ -456,8 +462,8 @@ def run_ptprocess(ctx):
     with concurrent.futures.ThreadPoolExecutor(max_workers=12) as ex:
         traces = list(ex.map(one, scen))
     traces = ctx.drop_dead(traces)
-    life = [t for t in traces if t["scenario"]["group"] != "config"]
-    cfg = [t for t in traces if t["scenario"]["group"] == "config"]
+    life = [t for t in traces if t["scenario"]["group"] in ("life", "early")]
+    cfg = [t for t in traces if t["scenario"]["group"] in ("config", "note")]
     ctx.sample({"group": "ptprocess", "scenario": {k: v for k, v in life[0]["scenario"].items()}, "events": life[0]["events"]})
     # the shutdown clauses of C19 on the real process: verdicts
     lrej = ctx.validate("PtProcessTrace", "PtProcessTrace.cfg", life, label="real process: life cycle")
@@ -470,8 +476,13 @@ def run_ptprocess(ctx):
         tr["reject"]["at_event_index"], json.dumps(tr["reject"]["event"])[:200], json.dumps(tr["scenario"])[:400]), attempts=3)
     # the configuration protocol is not a listed property: mismatches are reported as notes, not as verdicts
     crej = ctx.validate("PtProcessTrace", "PtProcessTrace.cfg", cfg, label="real process: configuration protocol", max_rejects=10)
+    for t in traces:
+        if t["scenario"]["group"] == "note":
+            pr = [e.get("accepted") for e in t["events"] if e.get("event") == "Probe"]
+            ctx.notes.append("recorded deviation AcceptLoopSurvives (no listed property owns it): RLIMIT_NOFILE=40, flood of %s connections, "
+                             "probes before / after the flood accepted: %s" % ([e.get("opened") for e in t["events"] if e.get("event") == "Flood"], pr))
     for tr in crej:
-        ctx.notes.append("PT configuration protocol drift (growth spec, no verdict): %s at %s" % (
+        ctx.notes.append("PT configuration protocol / recorded-deviation drift (growth spec, no verdict): %s at %s" % (
             json.dumps(tr["scenario"]["env"]), json.dumps(tr["reject"]["event"])[:300]))
     ctx.log("ptprocess: %d launches (%d configuration, %d life cycle / early), %d + %d rejected" % (len(traces), len(cfg), len(life), len(lrej), len(crej)))
     return len(traces)
